@@ -49,6 +49,7 @@ def budget(tier):
 
 
 def strategy(tier):
+    N.enable_long_texts(tier == "thorough")
     mc = 5 if tier == "quick" else 8
     return st.tuples(N.pair(max_cells=mc, dup_ids=True), st.integers(0, 3)).map(
         lambda t: {"a": t[0][0], "b": t[0][1], "rel": t[0][2], "file": t[1] == 0})
